@@ -7,6 +7,9 @@
 //!   driver `extract/intro_driver.ml`), impl.txt (one answer per op), monitor.txt (violations of
 //!   the property statement seen on the implementation alone) and stats.json.
 //! `intro run <cases> <impl-out>`: interpret a cases file with the real code (replay).
+//! `intro derive <outdir>`: only the derive-consistency stream (hand-written types of `intro_types.rs`:
+//!   ids/flags/fallback said by the `Introspectable` derive vs. what the `Serialize`/`Deserialize`
+//!   derives do on the wire; feature `c20-macros`).
 use aldrin_core::introspection::{
     ir, BuiltInType, DynIntrospectable, Introspectable, Introspection, Layout, LexicalId,
     References,
@@ -730,6 +733,272 @@ fn generated_families(_out: &mut Out, _monitor: &mut Vec<String>, classes: &mut 
     *classes.entry("generated_types_not_compiled_in").or_insert(0) += 1;
 }
 
+// ------------------------------------------------------------------ hand-written types through the derive macros
+
+#[cfg(feature = "c20-macros")]
+#[path = "../intro_types.rs"]
+mod intro_types;
+
+/// Derive-consistency stream: for a fixed family of hand-written types (`intro_types.rs`) what the
+/// `Introspectable` derive says (ids, required flags, fallback; hence the type id) is compared with
+/// what the `Serialize`/`Deserialize` derives of the same type do on the wire.  Rust only; the
+/// derived layouts are also written to cases.txt so that the model sees them.
+#[cfg(feature = "c20-macros")]
+mod derive_stream {
+    use super::intro_types::{self, Case, Probe, Typed};
+    use super::*;
+    use aldrin_core::{Enum as VEnum, Struct as VStruct, Value};
+    use std::collections::HashMap;
+
+    pub type Stats = BTreeMap<&'static str, u64>;
+    fn bump(st: &mut Stats, k: &'static str, n: u64) { *st.entry(k).or_insert(0) += n; }
+
+    /// what the derive put into the IR: (name, id, required), fallback name
+    #[derive(Debug, Default, Clone)]
+    struct Said { kind: &'static str, items: Vec<(String, u32, bool)>, fallback: Option<String>, target: Option<Lex> }
+    fn said(root: &Node) -> Said {
+        match &root.layout {
+            LayoutS::Struct { fields, fb, .. } => Said { kind: "struct", items: fields.iter().map(|f| (f.name.clone(), f.id, f.req)).collect(), fallback: fb.as_ref().map(|f| f.0.clone()), target: None },
+            LayoutS::Enum { variants, fb, .. } => Said { kind: "enum", items: variants.iter().map(|v| (v.name.clone(), v.id, true)).collect(), fallback: fb.as_ref().map(|f| f.0.clone()), target: None },
+            LayoutS::Newtype { target, .. } => Said { kind: "newtype", items: vec![], fallback: None, target: Some(target.clone()) },
+            LayoutS::BuiltIn(_) => Said { kind: "built-in", ..Default::default() },
+            LayoutS::Service { .. } => Said { kind: "service", ..Default::default() },
+        }
+    }
+    fn table_text(t: &[(String, u32)]) -> String {
+        let mut v: Vec<String> = t.iter().map(|(n, i)| format!("{n}@{i}")).collect();
+        v.sort();
+        format!("[{}]", v.join(" "))
+    }
+    fn as_set(t: &[(String, u32)]) -> BTreeSet<(String, u32)> { t.iter().cloned().collect() }
+    fn unused_id(used: &[(String, u32)], said: &Said) -> u32 {
+        let mut id = 3_000_000_017u32;
+        while used.iter().any(|(_, i)| *i == id) || said.items.iter().any(|(_, i, _)| *i == id) { id += 1; }
+        id
+    }
+
+    /// the root with the ids `ids` (by name, in this order); member types, flags and docs as introspected
+    fn retable(table: &[Node], ids: &[(String, u32)]) -> Vec<Node> {
+        let mut t = table.to_vec();
+        match &mut t[0].layout {
+            LayoutS::Struct { fields, .. } => {
+                let old = fields.clone();
+                *fields = ids.iter().map(|(n, id)| match old.iter().find(|f| f.name == *n) {
+                    Some(f) => FieldS { id: *id, ..f.clone() },
+                    None => FieldS { id: *id, name: n.clone(), doc: None, req: true, ty: Lex::Prim("Unit") } }).collect();
+            }
+            LayoutS::Enum { variants, .. } => {
+                let old = variants.clone();
+                *variants = ids.iter().map(|(n, id)| match old.iter().find(|v| v.name == *n) {
+                    Some(v) => VariantS { id: *id, ..v.clone() },
+                    None => VariantS { id: *id, name: n.clone(), doc: None, ty: None } }).collect();
+            }
+            _ => {}
+        }
+        t
+    }
+
+    pub struct Seen { pub table: Vec<Node>, pub wire: Vec<(String, u32)>, pub tid: String }
+
+    /// all checks that concern one derived type; `fail(what, variant table)` records a violation
+    fn check_typed(label: &str, t: &Typed, out: &mut Out, monitor: &mut Vec<String>, st: &mut Stats) -> Seen {
+        let table = table_from_dyn(t.dy);
+        let text = universe_text(&table);
+        let tid = hex(t.tid.0.as_bytes());
+        let mut fail = |what: String, variant: Option<&[Node]>| {
+            let v = variant.map(|v| format!(" variant={} vroot=0", universe_text(v))).unwrap_or_default();
+            monitor.push(format!("derive consistency: {label}: {what} universe={text} root=0{v}"));
+        };
+        // ---- the derived layout graph goes to the model like any family
+        out.universe(&table);
+        let mut t0 = String::new();
+        for k in 0..table.len() { out.op("lexid", k); out.op("canon", k); let x = out.op("tid", k); if k == 0 { t0 = x; } }
+        out.op("cbytes", 0);
+        out.op("intro", 0);
+        let rt = out.op("rt", 0);
+        bump(st, "types_checked", 1);
+        bump(st, "layout_nodes_sent_to_the_model", table.len() as u64);
+        if t0 != tid { fail(format!("TypeId::compute gives {tid}, the IR read back and rebuilt through the builders gives {t0}"), None); }
+        if !rt.starts_with("ok") { fail(format!("record round trip fails: {rt}"), None); }
+
+        let said = said(&table[0]);
+        let said_ids: Vec<(String, u32)> = said.items.iter().map(|(n, i, _)| (n.clone(), *i)).collect();
+        let mut wire: Vec<(String, u32)> = vec![];
+        let declared_fb: Option<String>;
+        match &t.probe {
+            Probe::Struct { full, by_ref, fields, fallback } => {
+                declared_fb = fallback.map(|s| s.to_string());
+                if said.kind != "struct" { fail(format!("a struct is introspected as a {}", said.kind), None); }
+                for (i, a) in fields.iter().enumerate() { for b in &fields[i + 1..] { assert!(a.1 != b.1, "harness: fields {} and {} of {label} carry the same content", a.0, b.0); } }
+                if by_ref != full { fail("`&T` and `T` serialize differently".into(), None); }
+                let map: HashMap<u32, Value> = match full.deserialize_as_value() {
+                    Ok(Value::Struct(VStruct(m))) => m,
+                    other => { fail(format!("the derived Serialize does not write a struct: {other:?}"), None); HashMap::new() }
+                };
+                for (name, content) in fields {
+                    let ids: Vec<u32> = map.iter().filter(|(_, v)| *v == content).map(|(k, _)| *k).collect();
+                    if ids.len() == 1 { wire.push((name.to_string(), ids[0])); } else { fail(format!("field {name} is on the wire {} times", ids.len()), None); }
+                }
+                if map.len() != fields.len() { fail(format!("{} fields declared, {} ids on the wire", fields.len(), map.len()), None); }
+                bump(st, "struct_fields_compared", wire.len() as u64);
+                // the value goes through the derived Deserialize and back unchanged
+                match (t.redecode)(full).map(|s| s.deserialize_as_value()) {
+                    Some(Ok(Value::Struct(VStruct(m)))) if m == map => {}
+                    other => fail(format!("full value does not survive Deserialize + Serialize: {other:?}"), None),
+                }
+                // optional-ness: a value lacking one field decodes iff the introspection calls the field optional
+                for (name, id) in &wire {
+                    let Some((_, _, req)) = said.items.iter().find(|(n, _, _)| n == name) else { continue };
+                    let mut m = map.clone();
+                    m.remove(id);
+                    let lacking = SerializedValue::serialize(Value::Struct(VStruct(m))).unwrap();
+                    let accepted = (t.redecode)(&lacking).is_some();
+                    bump(st, if accepted { "lacking_field_accepted" } else { "lacking_field_rejected" }, 1);
+                    if accepted == *req { fail(format!("field {name}@{id} is introspected as {} but a value lacking it is {} by the derived Deserialize",
+                        if *req { "required" } else { "optional" }, if accepted { "accepted" } else { "rejected" }), None); }
+                }
+                // fallback: an unknown field is always tolerated and is kept exactly when there is a fallback field
+                let u = unused_id(&wire, &said);
+                let mut m = map.clone();
+                m.insert(u, Value::U8(1));
+                let extra = SerializedValue::serialize(Value::Struct(VStruct(m))).unwrap();
+                let kept = match (t.redecode)(&extra).map(|s| s.deserialize_as_value()) {
+                    Some(Ok(Value::Struct(VStruct(m)))) => Some(m.contains_key(&u)),
+                    _ => None,
+                };
+                bump(st, match kept { Some(true) => "unknown_field_kept", Some(false) => "unknown_field_dropped", None => "unknown_field_rejected" }, 1);
+                if kept != Some(declared_fb.is_some()) { fail(format!("unknown field {u}: kept={kept:?}, fallback field declared: {declared_fb:?}"), None); }
+            }
+            Probe::Enum { variants, fallback } => {
+                declared_fb = fallback.map(|s| s.to_string());
+                if said.kind != "enum" { fail(format!("an enum is introspected as a {}", said.kind), None); }
+                for (name, bytes, by_ref) in variants {
+                    if by_ref != bytes { fail(format!("variant {name}: `&T` and `T` serialize differently"), None); }
+                    match bytes.deserialize_as_value() {
+                        Ok(Value::Enum(e)) => wire.push((name.to_string(), e.id)),
+                        other => fail(format!("variant {name}: the derived Serialize does not write an enum: {other:?}"), None),
+                    }
+                    if (t.redecode)(bytes).as_ref() != Some(bytes) { fail(format!("variant {name} does not survive Deserialize + Serialize"), None); }
+                }
+                bump(st, "enum_variants_compared", wire.len() as u64);
+                // fallback: an unknown variant decodes (and is passed on unchanged) exactly when there is a fallback variant
+                let u = unused_id(&wire, &said);
+                let unknown = SerializedValue::serialize(Value::Enum(Box::new(VEnum::new(u, Value::U8(1))))).unwrap();
+                let back = (t.redecode)(&unknown);
+                bump(st, if back.is_some() { "unknown_variant_accepted" } else { "unknown_variant_rejected" }, 1);
+                if back.is_some() != declared_fb.is_some() || back.as_ref().is_some_and(|b| *b != unknown) {
+                    fail(format!("unknown variant {u}: accepted={}, fallback variant declared: {declared_fb:?}", back.is_some()), None);
+                }
+            }
+            Probe::Newtype { value, by_ref, inner, target } => {
+                declared_fb = None;
+                bump(st, "newtypes_compared", 1);
+                if by_ref != value { fail("`&T` and `T` serialize differently".into(), None); }
+                if said.kind != "newtype" || said.target != Some(Lex::Raw(target.0)) { fail(format!("newtype over {}: introspected as {} with target {:?}", target.0, said.kind, said.target), None); }
+                match value.deserialize_as_value() { Ok(v) if v == *inner => {}, other => fail(format!("a newtype must serialize as its field {inner:?}: {other:?}"), None) }
+                if (t.redecode)(value).as_ref() != Some(value) { fail("value does not survive Deserialize + Serialize".into(), None); }
+            }
+        }
+        if said.fallback != declared_fb { fail(format!("fallback introspected as {:?}, declared as {declared_fb:?}", said.fallback), None); }
+
+        // ---- the two id tables agree; the id is the id of the wire layout and not of the positional one
+        if !matches!(t.probe, Probe::Newtype { .. }) {
+            let twin = retable(&table, &wire);
+            if as_set(&said_ids) != as_set(&wire) || said_ids.len() != wire.len() {
+                fail(format!("ids in the introspection {} differ from the ids on the wire {}", table_text(&said_ids), table_text(&wire)), Some(&twin));
+            }
+            if twin.len() <= MAXN {
+                out.universe(&twin);
+                let tt = out.op("tid", 0);
+                bump(st, "wire_layout_rebuilt_by_hand", 1);
+                if tt != tid { fail(format!("TypeId {tid} is not the id {tt} of the layout the wire uses {}", table_text(&wire)), Some(&twin)); }
+                // two other layouts a wrong default rule would give: every id = the position; the position only
+                // where the id could be a default (= previous id + 1), i.e. "the default id is the position"
+                let pos: Vec<(String, u32)> = wire.iter().enumerate().map(|(i, (n, _))| (n.clone(), i as u32)).collect();
+                let posdef: Vec<(String, u32)> = wire.iter().enumerate().map(|(i, (n, id))| {
+                    let default = if i == 0 { 0 } else { wire[i - 1].1.wrapping_add(1) };
+                    (n.clone(), if *id == default { i as u32 } else { *id }) }).collect();
+                for (what, alt) in [("positional layout", &pos), ("layout whose default id is the position", &posdef)] {
+                    let distinct: BTreeSet<u32> = alt.iter().map(|(_, i)| *i).collect();
+                    if *alt == wire || distinct.len() != alt.len() || (what.starts_with("layout") && posdef == pos) { continue; }
+                    let atab = retable(&table, alt);
+                    out.universe(&atab);
+                    let ta = out.op("tid", 0);
+                    bump(st, "other_layouts_rebuilt_by_hand", 1);
+                    if ta == tid { fail(format!("TypeId {tid} is the id of the {what} {}, the wire uses {}", table_text(alt), table_text(&wire)), Some(&atab)); }
+                }
+            }
+        }
+        Seen { table, wire, tid }
+    }
+
+    fn check_case(c: &Case, out: &mut Out, monitor: &mut Vec<String>, st: &mut Stats) {
+        let w = check_typed(&format!("w::{}", c.name), &c.w, out, monitor, st);
+        let positions: Vec<(String, u32)> = w.wire.iter().enumerate().map(|(i, (n, _))| (n.clone(), i as u32)).collect();
+        bump(st, if positions == w.wire { "types_whose_ids_are_the_positions" } else { "types_whose_ids_differ_from_the_positions" }, 1);
+        let wtext = universe_text(&w.table);
+        if let Some(x) = &c.x {
+            let s = check_typed(&format!("x::{}", c.name), x, out, monitor, st);
+            bump(st, "derived_explicit_twins", 1);
+            if s.wire != w.wire { monitor.push(format!("derive consistency: {}: as written the wire ids are {}, the documented default (previous id + 1) spelled out gives {} universe={wtext} root=0 variant={} vroot=0",
+                c.name, table_text(&w.wire), table_text(&s.wire), universe_text(&s.table))); }
+            if s.tid != w.tid { monitor.push(format!("derive consistency: {}: same wire layout {}, different TypeId: as written {}, with every id spelled out {} universe={wtext} root=0 variant={} vroot=0",
+                c.name, table_text(&w.wire), w.tid, s.tid, universe_text(&s.table))); }
+        }
+        if let Some(q) = &c.q {
+            let s = check_typed(&format!("q::{}", c.name), q, out, monitor, st);
+            bump(st, "derived_position_as_default_twins", 1);
+            assert!(s.wire != w.wire, "harness: q::{} has the wire ids of w::{}", c.name, c.name);
+            if s.tid == w.tid { monitor.push(format!("derive consistency: {}: different wire layouts ({} as written, {} for the twin whose default id is the position), same TypeId {} universe={wtext} root=0 variant={} vroot=0",
+                c.name, table_text(&w.wire), table_text(&s.wire), w.tid, universe_text(&s.table))); }
+        }
+        if let Some(p) = &c.p {
+            let s = check_typed(&format!("p::{}", c.name), p, out, monitor, st);
+            bump(st, "derived_position_twins", 1);
+            if s.wire != positions { monitor.push(format!("derive consistency: {}: every id spelled out as the position, but the wire ids are {} universe={wtext} root=0 variant={} vroot=0",
+                c.name, table_text(&s.wire), universe_text(&s.table))); }
+            assert!(positions != w.wire, "harness: {} has a position twin but its ids are the positions", c.name);
+            if s.tid == w.tid { monitor.push(format!("derive consistency: {}: different wire layouts ({} as written, {} for the position twin), same TypeId {} universe={wtext} root=0 variant={} vroot=0",
+                c.name, table_text(&w.wire), table_text(&s.wire), w.tid, universe_text(&s.table))); }
+        }
+    }
+
+    pub fn run(out: &mut Out, monitor: &mut Vec<String>, st: &mut Stats) {
+        let before = monitor.len();
+        match catch(intro_types::cases) {
+            Err(m) => monitor.push(format!("derive consistency: building the probes with the derived Serialize panicked: {m} universe=U 0 root=0")),
+            Ok(cases) => for c in &cases {
+                bump(st, "hand_written_types", 1);
+                let mut local = vec![];
+                if let Err(m) = catch(|| check_case(c, out, &mut local, st)) { local.push(format!("derive consistency: {}: checks panicked: {m} universe=U 0 root=0", c.name)); }
+                monitor.extend(local);
+            }
+        }
+        bump(st, "monitor_failures", (monitor.len() - before) as u64);
+    }
+}
+
+#[cfg(feature = "c20-macros")]
+fn derive_consistency(out: &mut Out, monitor: &mut Vec<String>, st: &mut BTreeMap<&'static str, u64>) { derive_stream::run(out, monitor, st); }
+#[cfg(not(feature = "c20-macros"))]
+fn derive_consistency(_out: &mut Out, _monitor: &mut Vec<String>, st: &mut BTreeMap<&'static str, u64>) { st.insert("not_compiled_in", 1); }
+
+/// `intro derive <outdir>`: the derive-consistency stream alone (replay of its violations): cases.txt,
+/// impl.txt and monitor.txt as `gen` writes them; the monitor lines also go to stdout
+fn derive_only(outdir: &str) {
+    std::fs::create_dir_all(outdir).unwrap();
+    let mut out = Out { cases: std::io::BufWriter::new(std::fs::File::create(format!("{outdir}/cases.txt")).unwrap()),
+                        imp: std::io::BufWriter::new(std::fs::File::create(format!("{outdir}/impl.txt")).unwrap()), n: 0 };
+    let mut monitor: Vec<String> = vec![];
+    let mut st: BTreeMap<&'static str, u64> = BTreeMap::new();
+    derive_consistency(&mut out, &mut monitor, &mut st);
+    out.cases.flush().unwrap();
+    out.imp.flush().unwrap();
+    std::fs::write(format!("{outdir}/monitor.txt"), monitor.iter().map(|l| l.replace('\n', " ") + "\n").collect::<String>()).unwrap();
+    for l in &monitor { println!("{}", l.split(" universe=").next().unwrap_or(l)); }
+    println!("derive consistency: {} failure(s); {}", monitor.len(), st.iter().map(|(k, v)| format!("{k}={v}")).collect::<Vec<_>>().join(" "));
+}
+
 // ------------------------------------------------------------------ main
 
 struct Out { cases: std::io::BufWriter<std::fs::File>, imp: std::io::BufWriter<std::fs::File>, n: u64 }
@@ -857,6 +1126,8 @@ fn gen(outdir: &str, families: u64) {
         bump(&mut classes, if a != b { "incoherent_probe_id_depends_on_push_order" } else { "incoherent_probe_id_stable" });
     }
     generated_families(&mut out, &mut monitor, &mut classes);
+    let mut derive_st: BTreeMap<&'static str, u64> = BTreeMap::new();
+    derive_consistency(&mut out, &mut monitor, &mut derive_st);
     out.cases.flush().unwrap();
     out.imp.flush().unwrap();
     std::fs::write(format!("{outdir}/monitor.txt"), monitor.iter().map(|l| l.replace('\n', " ") + "\n").collect::<String>()).unwrap();
@@ -866,6 +1137,7 @@ fn gen(outdir: &str, families: u64) {
     for (k, v) in &st { write!(s, "\"{k}\":{v},").unwrap(); }
     write!(s, "\"layout_kinds\":{{{}}},\"edit_kinds\":{{{}}},", js(&kinds), js(&edits)).unwrap();
     write!(s, "\"result_classes\":{{{}}},", classes.iter().map(|(k, v)| format!("\"{k}\":{v}")).collect::<Vec<_>>().join(",")).unwrap();
+    write!(s, "\"derive_consistency\":{{{}}},", derive_st.iter().map(|(k, v)| format!("\"{k}\":{v}")).collect::<Vec<_>>().join(",")).unwrap();
     write!(s, "\"samples\":[{}]}}", samples.iter().map(|x| format!("\"{}\"", x.replace('\\', "\\\\").replace('"', "\\\""))).collect::<Vec<_>>().join(",")).unwrap();
     std::fs::write(format!("{outdir}/stats.json"), s).unwrap();
 }
@@ -887,6 +1159,7 @@ fn main() {
     match a.get(1).map(|s| s.as_str()) {
         Some("gen") => gen(&a[2], a[3].parse().unwrap()),
         Some("run") => run(&a[2], &a[3]),
-        _ => { eprintln!("usage: intro gen <outdir> <families> | intro run <cases> <impl-out>"); std::process::exit(2) }
+        Some("derive") => derive_only(&a[2]),
+        _ => { eprintln!("usage: intro gen <outdir> <families> | intro run <cases> <impl-out> | intro derive <outdir>"); std::process::exit(2) }
     }
 }
